@@ -83,6 +83,9 @@ def main():
     res["suite_with_patch"] = {"rc": rc, "passed": passed, "failed": failed}
     res["valid"] = bool(res["demo_without_patch_passes"] and res["demo_with_patch_fails"] and rc == 0 and failed == 0)
     sh("git reset -q --hard && git clean -fdq", cwd=WT)
+    if os.environ.get("SEED_VALIDATE_ONLY"):
+        print(json.dumps(res))
+        return 0
     return run_checks(res, patch, checks)
 
 
